@@ -401,6 +401,10 @@ func (s *Scenario) buildWorld(W string, src []byte, image []byte) (*worldPaths, 
 		wp.stdinData = append([]byte{}, src...)
 	case "relative", "dotslash":
 		must(os.WriteFile(srcAbs, src, 0644))
+	case "barename": // a bare file name in the current directory, with an unusual first character
+		srcName = pick(r, []string{"01_hello.nas", "3d.nas", "2", "+x.nas", "=a.nas", "@file.nas", "~tilde.nas", ".hidden.nas", "a b.nas", "名前.nas", "1"})
+		srcAbs = filepath.Join(W, srcName)
+		must(os.WriteFile(srcAbs, src, 0644))
 	case "fifo": // a named pipe fed by a writer (stat size 0; e.g. the output of a preprocessor)
 		must(syscall.Mkfifo(srcAbs, 0666))
 		os.Chmod(srcAbs, 0666)
@@ -418,6 +422,8 @@ func (s *Scenario) buildWorld(W string, src []byte, image []byte) (*worldPaths, 
 		wp.SrcArg = ""
 	case "stdin":
 		wp.SrcArg, wp.SrcAbs = "/dev/stdin", "/dev/stdin"
+	case "barename":
+		wp.SrcArg = srcName
 	case "relative":
 		wp.SrcArg = filepath.Join("in", srcName)
 	case "dotslash":
@@ -476,6 +482,10 @@ func (s *Scenario) buildWorld(W string, src []byte, image []byte) (*worldPaths, 
 		must(os.Symlink(filepath.Join(W, "out", "newtarget.bin"), dstAbs))
 	case "dev_full":
 		dstAbs, dstArg = "/dev/full", "/dev/full"
+	case "barename":
+		dstName = pick(r, []string{"1.bin", "0", "outfile", "+o", "@o.bin", ".o", "9", "7e.obj", "o o.bin"})
+		dstAbs = filepath.Join(W, dstName)
+		dstArg = dstName
 	case "relative":
 		dstArg = filepath.Join("out", dstName)
 	case "dotdot":
